@@ -17,3 +17,11 @@ Definition check_case (c : list nat * list nat * list (nat * nat)) : bool :=
 
 Definition check_cases (l : list (list nat * list nat * list (nat * nat))) : list nat :=
   failing (map check_case l).
+
+(* schedules that end with failing builds: (schedule, processes whose build fails afterwards, observed state of
+   the final name after the failures) *)
+Definition check_unwind (c : list nat * list nat * nat) : bool :=
+  let '(sched, aborted, after) := c in
+  let s := erun false (map Step sched ++ map Abort aborted) init in
+  Nat.eqb (code (final s)) after.
+Definition check_unwinds (l : list (list nat * list nat * nat)) : list nat := failing (map check_unwind l).
